@@ -336,7 +336,7 @@ fn main() {
         let audited = AtomicU64::new(0);
         let nontrivial = AtomicU64::new(0);
         let divergence: Mutex<Option<String>> = Mutex::new(None);
-        let opts = DfsOpts { bound: 0, jobs, max_executions: 50_000_000, wall: Duration::from_secs(if thorough { 900 } else { 45 }), ..Default::default() };
+        let opts = DfsOpts { bound: 0, jobs, max_executions: 50_000_000, wall: Duration::from_secs(if thorough { 1500 } else { 90 }), ..Default::default() };
         let res = explore(&opts, |ch| {
             let out = one_execution(m, ties, ch);
             // new tree nodes of this execution: the choice points after its last non-default choice
